@@ -47,13 +47,13 @@ TIMEOUT = {'quick': 900, 'thorough': 7200}
 def shards(tier, seed):
     q = tier == 'quick'
     out = [{'name': 'history', 'what': 'history',
-            'pool': 160 if q else 1500, 'events': 6000 if q else 100000,
+            'pool': 160 if q else 1500, 'events': 6000 if q else 300000,
             'fresh': 128 if q else 1500, 'storm': 1500 if q else 8000}]
-    reps = 3 if q else 10
+    reps = 3 if q else 16
     for r in range(reps):
         out.append({'name': 'threads%d' % r, 'what': 'threads', 'rep': r,
                     'pool': 160 if q else 400, 'threads': 8 if q else 16,
-                    'ops': 400 if q else 2000, 'rounds': 4 if q else 8})
+                    'ops': 400 if q else 4000, 'rounds': 4 if q else 8})
     out.append({'name': 'alias', 'what': 'alias',
                 'pool': 240 if q else 2000})
     return out
